@@ -512,6 +512,10 @@ func (r *yieldRewriter) rewriteForStmt(
 	}
 
 	if trivalPost {
+		// the body becomes the body of a thunk: a trailing if / switch that can
+		// fall through needs the implicit normal continuation, like any other
+		// thunk body (the combine branch below already does the same)
+		r.generateLastNormalIfNecessary(body)
 		callFor := r.CallFor(
 			r.ForCondFun(stmt.Cond),
 			r.ForPostFun(stmt.Post),
